@@ -78,10 +78,10 @@ Proof. exact last_four_seconds. Qed.
 Print Assumptions C06_last_four_seconds.
 
 (* whatever read returns contains no caption displayed for less than 0.05 s *)
-Theorem C06_flash_rejected : forall s caps, finish_read s = ROk caps ->
+Theorem C06_finish_read_unfold : forall s caps, finish_read s = ROk caps ->
    caps = fix_last (st_caps s) /\ forall c, In c caps -> is_flash c = false.
 Proof. exact flash_rejected. Qed.
-Print Assumptions C06_flash_rejected.
+Print Assumptions C06_finish_read_unfold.
 
 (* END TO END on the whole reader model, for the closed stage of the pop-on refinement (one load, one row of basic
    characters at any address, codes single or doubled, any well-formed timecodes, any offset): the caption starts at
